@@ -221,7 +221,7 @@ def sym_sorter(vc):
                 check(it, 'emits-the-stored-value' + tag, len(ys) == 1 and ys[0].obj is cap[1])
                 cover(it, 'out-iter-reachable' + tag)
             it.loops['process#L0'] = LoopSpec(at_start=p_start, at_end=p_end)
-            it.loops['_sorter#L1'] = LoopSpec(at_start=lambda it, env, e: e, at_end=o_end,
+            it.loops['_sorter#L0'] = LoopSpec(at_start=lambda it, env, e: e, at_end=o_end,
                                               at_exit=lambda it, env: it.path.info.__setitem__('exit_mark', len(it.path.events)))
             it.run_generator(it.call(srt, [rows, key_calc, reverse, 1000]))
             evs = it.path.events
